@@ -440,7 +440,27 @@ static void exec_one(void)
 	if (mc_arg_int("methods", 0))
 		method = mc_choose(4, MC_CONFIG, "method");
 	env_exclude_methods = excl[method];
-	cfg = mc_choose(NCFG, MC_CONFIG, "interests");
+	{
+		/* cfgs=<list> restricts the interest configurations (default: all) */
+		int cl[32], nc = 0;
+		const char *a = mc_arg("cfgs", "");
+		while (*a && nc < 32) {
+			char *e;
+			long v = strtol(a, &e, 10), w;
+			if (e == a) break;
+			w = v;
+			if (*e == '-') w = strtol(e + 1, &e, 10);
+			for (; v <= w && nc < 32; v++) cl[nc++] = v;
+			a = e;
+			if (*a == ',') a++;
+		}
+		if (nc)
+			cfg = cl[mc_choose(nc, MC_CONFIG, "interests")];
+		else
+			cfg = mc_choose(NCFG, MC_CONFIG, "interests");
+		if (cfg < 0 || cfg >= NCFG)
+			mc_broken("bad cfg");
+	}
 	for (i = 0; i < CFG[cfg].n; i++) {
 		I[i].present = 1;
 		I[i].thr = CFG[cfg].thr[i];
